@@ -60,9 +60,34 @@ EXC_CLASS_NAMES = ['ValueError', 'KeyError', 'TypeError', 'AssertionError', 'Run
 DATA_MODES = ('absent', 'null', 'value')
 
 
-def make_proto_error(code: int, message: str, data_mode: str = 'absent', data: Any = None) -> JsonRpcError:
-    d = UNSET if data_mode == 'absent' else (None if data_mode == 'null' else data)
-    return JsonRpcError(code=code, message=message, data=d)
+class _NoData:
+    def __repr__(self) -> str:
+        return 'NODATA'
+
+
+NODATA = _NoData()
+
+
+class ProtoFailure(Exception):
+    """What a method body *means* when it fails with a protocol error: pure data, independent of pjrpc.
+
+    The registered wrapper turns it into ``pjrpc.exceptions.JsonRpcError(code, message, data)`` at the service
+    boundary, so that defects of that class's constructor are pjrpc's, not the reference's.
+    """
+
+    def __init__(self, code: int, message: str, data: Any = NODATA):
+        super().__init__(code, message)
+        self.code = code
+        self.message = message
+        self.data = data
+
+
+def to_jsonrpc_error(pf: ProtoFailure) -> JsonRpcError:
+    return JsonRpcError(code=pf.code, message=pf.message, data=UNSET if pf.data is NODATA else pf.data)
+
+
+def make_proto_failure(code: int, message: str, data_mode: str = 'absent', data: Any = None) -> ProtoFailure:
+    return ProtoFailure(code, message, NODATA if data_mode == 'absent' else (None if data_mode == 'null' else data))
 
 
 # --- bodies: what a direct Python call does --------------------------------------------------------------------------
@@ -83,7 +108,11 @@ def b_pair(tok, x, y):
 
 
 def b_fail_proto(tok, code, message, data_mode='absent', data=None):
-    raise make_proto_error(code, message, data_mode, data)
+    # a method must itself raise only well-formed protocol errors (integer code, string message); when the wire
+    # was corrupted so that the script is malformed, the body fails like any buggy method would: TypeError
+    if isinstance(code, bool) or not isinstance(code, int) or not isinstance(message, str) or data_mode not in DATA_MODES:
+        raise TypeError('fail_proto: malformed failure script')
+    raise make_proto_failure(code, message, data_mode, data)
 
 
 def b_fail_exc(tok, kind):
@@ -114,8 +143,8 @@ def direct(name: str, args: Tuple[Any, ...] = (), kwargs: Optional[Dict[str, Any
     """Outcome of calling the body directly: ('ok', v) | ('err', code, message, data|UNSET) | ('exc', type name)."""
     try:
         value = BODIES[name](*args, **(kwargs or {}))
-    except JsonRpcError as e:
-        return ('err', e.code, e.message, e.data if e.data is UNSET else jnorm(e.data))
+    except ProtoFailure as e:
+        return ('err', e.code, e.message, UNSET if e.data is NODATA else jnorm(e.data))
     except Exception as e:  # noqa: BLE001 - reference semantics: any other exception
         return ('exc', type(e).__name__)
     return ('ok', jnorm(value))
@@ -156,6 +185,9 @@ class Service:
             tok = self._enter(name, args, kwargs)
             try:
                 value = body(*args, **kwargs)
+            except ProtoFailure as pf:
+                world.rec(node, 'method.exit', method=name, tok=tok, outcome='raise', exc='ProtoFailure')
+                raise to_jsonrpc_error(pf)
             except BaseException as e:
                 world.rec(node, 'method.exit', method=name, tok=tok, outcome='raise', exc=type(e).__name__)
                 raise
@@ -176,6 +208,9 @@ class Service:
                     await asyncio.sleep(d)
                     world.rec(node, 'method.step', method=name, tok=tok, k=k)
                 value = body(*args, **kwargs)
+            except ProtoFailure as pf:
+                world.rec(node, 'method.exit', method=name, tok=tok, outcome='raise', exc='ProtoFailure')
+                raise to_jsonrpc_error(pf)
             except BaseException as e:
                 world.rec(node, 'method.exit', method=name, tok=tok, outcome='raise', exc=type(e).__name__)
                 raise
